@@ -1,0 +1,343 @@
+//! Toy key-homomorphic NIKE: scalars in Z_p (p = 251), "points" are exponents
+//! of the generator in the additive group (Z_p, +), i.e. `Point(x)` stands for
+//! `g^x`. All group / ring laws used by the scheme hold exactly; discrete
+//! logarithms are of course trivial (no secrecy is modelled, only algebra).
+
+use std::iter::Sum;
+use std::ops::{Add, AddAssign, Deref, Div, Mul, MulAssign, Sub, SubAssign};
+
+use cosmian_crypto_core::bytes_ser_de::{Deserializer, Serializable, Serializer};
+use cosmian_crypto_core::reexport::rand_core::CryptoRngCore;
+use cosmian_crypto_core::CryptoCoreError;
+use zeroize::Zeroize;
+
+use super::hash::{Hasher, Sha3};
+use crate::traits::{Group, KeyHomomorphicNike, Nike, One, Ring, Sampling, Zero};
+use crate::Error;
+
+pub const P: u16 = 251;
+
+const fn inv_table() -> [u8; P as usize] {
+    let mut table = [0u8; P as usize];
+    let mut a = 1u16;
+    while a < P {
+        let mut b = 1u16;
+        while b < P {
+            if (a * b) % P == 1 {
+                table[a as usize] = b as u8;
+            }
+            b += 1;
+        }
+        a += 1;
+    }
+    table
+}
+
+static INV: [u8; P as usize] = inv_table();
+
+#[inline]
+fn add(a: u8, b: u8) -> u8 {
+    ((a as u16 + b as u16) % P) as u8
+}
+
+#[inline]
+fn sub(a: u8, b: u8) -> u8 {
+    ((a as u16 + P - b as u16) % P) as u8
+}
+
+#[inline]
+fn mul(a: u8, b: u8) -> u8 {
+    ((a as u16 * b as u16) % P) as u8
+}
+
+#[derive(Clone, Debug, PartialEq, Eq, Zeroize)]
+pub struct ToyPoint(pub(crate) u8);
+
+#[derive(Clone, Debug, PartialEq, Eq, Hash)]
+pub struct ToyScalar(pub(crate) [u8; 1]);
+
+impl ToyScalar {
+    pub(crate) fn new(v: u8) -> Self {
+        Self([v % (P as u8)])
+    }
+
+    fn v(&self) -> u8 {
+        self.0[0]
+    }
+}
+
+impl Deref for ToyScalar {
+    type Target = [u8];
+
+    fn deref(&self) -> &Self::Target {
+        &self.0
+    }
+}
+
+impl Zero for ToyPoint {
+    fn zero() -> Self {
+        Self(0)
+    }
+
+    fn is_zero(&self) -> bool {
+        self.0 == 0
+    }
+}
+
+impl Zero for ToyScalar {
+    fn zero() -> Self {
+        Self([0])
+    }
+
+    fn is_zero(&self) -> bool {
+        self.v() == 0
+    }
+}
+
+impl One for ToyScalar {
+    fn one() -> Self {
+        Self([1])
+    }
+
+    fn is_one(&self) -> bool {
+        self.v() == 1
+    }
+}
+
+macro_rules! group_ops {
+    ($t:ident, $get:expr, $mk:expr) => {
+        impl Add for $t {
+            type Output = Self;
+            fn add(self, rhs: Self) -> Self {
+                $mk(add($get(&self), $get(&rhs)))
+            }
+        }
+        impl Add<&$t> for $t {
+            type Output = Self;
+            fn add(self, rhs: &$t) -> Self {
+                $mk(add($get(&self), $get(rhs)))
+            }
+        }
+        impl Add<&$t> for &$t {
+            type Output = $t;
+            fn add(self, rhs: &$t) -> $t {
+                $mk(add($get(self), $get(rhs)))
+            }
+        }
+        impl AddAssign for $t {
+            fn add_assign(&mut self, rhs: Self) {
+                *self = $mk(add($get(self), $get(&rhs)));
+            }
+        }
+        impl Sub for $t {
+            type Output = Self;
+            fn sub(self, rhs: Self) -> Self {
+                $mk(sub($get(&self), $get(&rhs)))
+            }
+        }
+        impl Sub<&$t> for $t {
+            type Output = Self;
+            fn sub(self, rhs: &$t) -> Self {
+                $mk(sub($get(&self), $get(rhs)))
+            }
+        }
+        impl Sub<&$t> for &$t {
+            type Output = $t;
+            fn sub(self, rhs: &$t) -> $t {
+                $mk(sub($get(self), $get(rhs)))
+            }
+        }
+        impl SubAssign for $t {
+            fn sub_assign(&mut self, rhs: Self) {
+                *self = $mk(sub($get(self), $get(&rhs)));
+            }
+        }
+        impl Sum for $t {
+            fn sum<I: Iterator<Item = Self>>(iter: I) -> Self {
+                iter.fold(<$t as Zero>::zero(), |a, x| a + x)
+            }
+        }
+        impl Group for $t {}
+    };
+}
+
+group_ops!(ToyPoint, |p: &ToyPoint| p.0, ToyPoint);
+group_ops!(ToyScalar, |s: &ToyScalar| s.0[0], |v| ToyScalar([v]));
+
+impl Mul for ToyScalar {
+    type Output = Self;
+    fn mul(self, rhs: Self) -> Self {
+        Self([mul(self.v(), rhs.v())])
+    }
+}
+
+impl MulAssign for ToyScalar {
+    fn mul_assign(&mut self, rhs: Self) {
+        self.0[0] = mul(self.v(), rhs.v());
+    }
+}
+
+impl Mul<&ToyScalar> for ToyScalar {
+    type Output = Self;
+    fn mul(self, rhs: &ToyScalar) -> Self {
+        Self([mul(self.v(), rhs.v())])
+    }
+}
+
+impl Mul<&ToyScalar> for &ToyScalar {
+    type Output = ToyScalar;
+    fn mul(self, rhs: &ToyScalar) -> ToyScalar {
+        ToyScalar([mul(self.v(), rhs.v())])
+    }
+}
+
+impl Div for ToyScalar {
+    type Output = Result<Self, CryptoCoreError>;
+    fn div(self, rhs: Self) -> Self::Output {
+        &self / &rhs
+    }
+}
+
+impl Div<&ToyScalar> for ToyScalar {
+    type Output = Result<Self, CryptoCoreError>;
+    fn div(self, rhs: &ToyScalar) -> Self::Output {
+        &self / rhs
+    }
+}
+
+impl Div<&ToyScalar> for &ToyScalar {
+    type Output = Result<ToyScalar, CryptoCoreError>;
+    fn div(self, rhs: &ToyScalar) -> Self::Output {
+        if rhs.v() == 0 {
+            Err(CryptoCoreError::ConversionError(
+                "division by zero".to_string(),
+            ))
+        } else {
+            Ok(ToyScalar([mul(self.v(), INV[rhs.v() as usize])]))
+        }
+    }
+}
+
+impl Ring for ToyScalar {
+    type DivError = CryptoCoreError;
+}
+
+impl From<&ToyScalar> for ToyPoint {
+    fn from(s: &ToyScalar) -> Self {
+        Self(s.v())
+    }
+}
+
+impl Mul<ToyScalar> for ToyPoint {
+    type Output = Self;
+    fn mul(self, rhs: ToyScalar) -> Self {
+        Self(mul(self.0, rhs.v()))
+    }
+}
+
+impl MulAssign<ToyScalar> for ToyPoint {
+    fn mul_assign(&mut self, rhs: ToyScalar) {
+        self.0 = mul(self.0, rhs.v());
+    }
+}
+
+impl Mul<&ToyScalar> for ToyPoint {
+    type Output = Self;
+    fn mul(self, rhs: &ToyScalar) -> Self {
+        Self(mul(self.0, rhs.v()))
+    }
+}
+
+impl Mul<&ToyScalar> for &ToyPoint {
+    type Output = ToyPoint;
+    fn mul(self, rhs: &ToyScalar) -> ToyPoint {
+        ToyPoint(mul(self.0, rhs.v()))
+    }
+}
+
+fn read_elt(de: &mut Deserializer) -> Result<u8, Error> {
+    let [v] = de.read_array::<1>()?;
+    if (v as u16) < P {
+        Ok(v)
+    } else {
+        Err(Error::ConversionFailed(
+            "non-canonical toy group element".to_string(),
+        ))
+    }
+}
+
+impl Serializable for ToyPoint {
+    type Error = Error;
+
+    fn length(&self) -> usize {
+        1
+    }
+
+    fn write(&self, ser: &mut Serializer) -> Result<usize, Self::Error> {
+        Ok(ser.write_array(&[self.0])?)
+    }
+
+    fn read(de: &mut Deserializer) -> Result<Self, Self::Error> {
+        read_elt(de).map(Self)
+    }
+}
+
+impl Serializable for ToyScalar {
+    type Error = Error;
+
+    fn length(&self) -> usize {
+        1
+    }
+
+    fn write(&self, ser: &mut Serializer) -> Result<usize, Self::Error> {
+        Ok(ser.write_array(&self.0)?)
+    }
+
+    fn read(de: &mut Deserializer) -> Result<Self, Self::Error> {
+        read_elt(de).map(|v| Self([v]))
+    }
+}
+
+impl Sampling for ToyScalar {
+    /// Uniform non-zero scalar (a real 252-bit scalar is zero with negligible
+    /// probability; that event is excluded from the model).
+    fn random(rng: &mut impl CryptoRngCore) -> Self {
+        let mut b = [0u8; 1];
+        rng.fill_bytes(&mut b);
+        Self([1 + b[0] % (P as u8 - 1)])
+    }
+
+    fn hash(seed: &[u8]) -> Self {
+        let mut hasher = Sha3::v512();
+        let mut bytes = [0; 512 / 8];
+        hasher.update(seed);
+        hasher.finalize(&mut bytes);
+        Self([bytes[0] % (P as u8)])
+    }
+}
+
+pub struct Toy;
+
+impl Nike for Toy {
+    type SecretKey = ToyScalar;
+    type PublicKey = ToyPoint;
+    type SessionKey = ToyPoint;
+    type Error = Error;
+
+    fn keygen(
+        rng: &mut impl CryptoRngCore,
+    ) -> Result<(Self::SecretKey, Self::PublicKey), Self::Error> {
+        let sk = Self::SecretKey::random(rng);
+        let pk = Self::PublicKey::from(&sk);
+        Ok((sk, pk))
+    }
+
+    fn session_key(
+        sk: &Self::SecretKey,
+        pk: &Self::PublicKey,
+    ) -> Result<Self::SessionKey, Self::Error> {
+        Ok(pk * sk)
+    }
+}
+
+impl KeyHomomorphicNike for Toy {}
